@@ -1,0 +1,11 @@
+//go:build verif
+
+package message
+
+// Constants read by the verification generator (hx gen). Add-only, build tag verif.
+const (
+	VerifMaxPathValue   = maxPathValue
+	VerifMax1ByteNumber = max1ByteNumber
+	VerifMax2ByteNumber = max2ByteNumber
+	VerifMax3ByteNumber = max3ByteNumber
+)
